@@ -283,7 +283,7 @@ def wl_flags(case):
     return [(on and st["opened"] and st["txed"], on and st["opened"] and st["rxed"]) for st in wl_states(case)]
 
 
-def build(kind, conn0, bs, wl, tymth=None, bufs=None):
+def build(kind, conn0, bs, wl, tymth=None, bufs=None, refreshable=None):
     """Returns (connection object, fake socket, who-bytes used in wire log records).
     bufs = (txbs, rxbs) bytearrays supplied by the owner of a client (None = let the client make its own)."""
     from hio.core.tcp import clienting, serving
@@ -302,10 +302,11 @@ def build(kind, conn0, bs, wl, tymth=None, bufs=None):
         who = str(HA).encode()
     else:
         sock = FakeSock(False, CA, HA)
+        kw = {} if refreshable is None else {"refreshable": refreshable, "tymeout": 2.0}    # only the remoters have it
         if kind == "remoter":
-            c = serving.Remoter(ha=HA, ca=CA, cs=sock, bs=bs, wl=wl, tymth=tymth)
+            c = serving.Remoter(ha=HA, ca=CA, cs=sock, bs=bs, wl=wl, tymth=tymth, **kw)
         else:
-            c = serving.RemoterTls(context=FakeCtx(), ha=HA, ca=CA, cs=sock, bs=bs, wl=wl, tymth=tymth)
+            c = serving.RemoterTls(context=FakeCtx(), ha=HA, ca=CA, cs=sock, bs=bs, wl=wl, tymth=tymth, **kw)
         who = str(CA).encode()
     return c, sock, who
 
@@ -341,7 +342,8 @@ def run_impl(case):
     bufs = None
     if case.get("bufs") and client:       # the owner hands its own buffers to the client (empty or preloaded txbs, empty rxbs)
         bufs = (bytearray(bytes.fromhex(case["bufs"]["txpre"])), bytearray())
-    c, sock, who = build(case["kind"], case["conn0"], case["bs"], wl, tymth=tymist.tymen(), bufs=bufs)
+    c, sock, who = build(case["kind"], case["conn0"], case["bs"], wl, tymth=tymist.tymen(), bufs=bufs,
+                         refreshable=case.get("refreshable"))
     ixsrv = None
     if not client:                       # a server that has this remoter registered, for the by-address helpers
         from hio.core.tcp import serving
@@ -800,6 +802,10 @@ def directed():
         # liveness: everything queued is delivered by len(txbs) healthy services (one byte at a time)
         out.append({"kind": kind, "conn0": True, "bs": 8, "wl": WL1, "drain": True, "ops":
                     [["tx", big[:80]], ["sends", blk], ["tx", big[80:120]]] + [["sends", ["acc", 1]]] * 60})
+    for c in list(out):
+        if not is_client(c["kind"]) and c["wl"]["mode"]:
+            for flag in (False, True):
+                out.append(dict(c, refreshable=flag))
     # default buffer size with payloads larger than bs
     for kind in ("client", "remotertls"):
         blob = bytes((i * 7 + 3) % 256 for i in range(20000)).hex()
@@ -897,6 +903,8 @@ def gen_case(rng, tier):
         else:
             ops.append(["connect"])
     case = {"kind": kind, "conn0": conn0, "bs": bs, "wl": spec, "ops": ops}
+    if not is_client(kind) and rng.random() < 0.6:
+        case["refreshable"] = rng.random() < 0.5        # constructor parameter of Remoter / RemoterTls
     if is_client(kind) and rng.random() < 0.4:
         case["bufs"] = {"txpre": rng.choice(["", "", "", hx(rng, rng.randint(1, 10))])}
         case["ops"] = ops = [["txo", o[1]] if o[0] == "tx" and rng.random() < 0.5 else o for o in ops]
